@@ -57,7 +57,7 @@ def run_one(tape, opts):
     result = pl.build_stack(spec, world, built, make_testtools=lambda w, n: LoggingTestResult(w, n))
     rep = pl.Reporter(result, hist, reuse_details_dict=tape.chance("config", 1, 3, "reporter-reuses-details-dict"))
     # a second pipeline of the same shape, alive at the same time, fed between the main one's calls
-    decoy = pl.Decoy(spec, lambda w, n: LoggingTestResult(w, n)) if tape.chance("config", 1, 3, "decoy-pipeline") else None
+    decoy = pl.Decoy.for_spec(spec, lambda w, n: LoggingTestResult(w, n)) if tape.chance("config", 1, 3, "decoy-pipeline") else None
     windows = {}
     override = None
     tests = []
